@@ -1169,7 +1169,7 @@ theorem body_insertNsAt (s : Sheet) (r : NsRule) (index : Nat) (clean : Bool) (h
         · simp only [h2, if_true]; exact this
         · simp only [h2, if_false]; exact this
 
-theorem nsInOrderIndex_le (s : Sheet) (i : Nat) (hi : i ≤ s.length) : nsInOrderIndex s i ≤ s.length := by
+theorem nsInOrderIndex_le (s : Sheet) : nsInOrderIndex s ≤ s.length := by
   have hl : ∀ (p : Rule → Bool) (l : List Rule) (k : Nat), lastIdx p l = some k → k < l.length := by
     intro p l
     induction l with
@@ -1196,7 +1196,7 @@ theorem nsInOrderIndex_le (s : Sheet) (i : Nat) (hi : i ≤ s.length) : nsInOrde
       have hlt := (List.findIdx?_eq_some_iff_findIdx_eq.mp hj).1
       simp only [List.length_drop] at hlt
       omega
-    · exact hi
+    · exact Nat.le_refl _
 
 theorem nsPosition_le {s : Sheet} {idx : Option Nat} {io : Bool} {index : Nat}
     (h : nsPosition s idx io = .ok index) : index ≤ s.length := by
@@ -1206,7 +1206,7 @@ theorem nsPosition_le {s : Sheet} {idx : Option Nat} {io : Bool} {index : Nat}
   · simp at h
   · rename_i hlen
     split at h
-    · simp only [Except.ok.injEq] at h; subst h; exact nsInOrderIndex_le _ _ (by omega)
+    · simp only [Except.ok.injEq] at h; subst h; exact nsInOrderIndex_le _
     · split at h
       · simp at h
       · split at h
